@@ -207,6 +207,17 @@ class Crate:
         self.data = data
         self.name = data["crate"]
         self.bodies = {}
+        if os.environ.get("ZVT_SCRAMBLE") and not data.get("_scrambled"):
+            # self-test aid: every user-chosen local / parameter / captured-variable name is changed (what a renaming
+            # refactoring does).  No verdict may depend on such a name; `self` cannot be renamed in Rust and stays.
+            for b_ in data["bodies"]:
+                for l_ in b_.get("locals", []):
+                    if l_.get("name") and l_["name"] != "self":
+                        l_["name"] = l_["name"] + "_q"
+                for u_ in b_.get("upvars", []):
+                    if u_.get("name") and u_["name"] != "self":
+                        u_["name"] = u_["name"] + "_q"
+            data["_scrambled"] = True
         # private helper functions are spliced into their callers before any analysis (see inline.py)
         import inline
         if not data.get("_inlined"):
